@@ -253,9 +253,10 @@ func caseC08(r *rand.Rand, cw *CalcWriter, label string, maxT int) {
 		if swap == 1 {
 			x, y = sb, sa
 		}
-		// presentations: each tree under another rooting / child order (inner node as root: stays unrooted)
-		ref := present(r, x, r.Intn(3))
-		cmp := present(r, y, r.Intn(3))
+		// presentations: each tree under another rooting / child order (0-2: an inner node as root, the tree stays unrooted;
+		// 3: rooted on a branch -- the two branches under the root are one bipartition)
+		ref := present(r, x, r.Intn(4))
+		cmp := present(r, y, r.Intn(4))
 		hist := ""
 		if !mismatch && r.Intn(3) == 0 {
 			hist = "ref:" + staleEdits(r, ref)
@@ -305,8 +306,8 @@ func caseC08(r *rand.Rand, cw *CalcWriter, label string, maxT int) {
 		})
 		cw.emit(evc)
 		// weighted
-		ref2 := present(r, x, r.Intn(3))
-		cmp2 := present(r, y, r.Intn(3))
+		ref2 := present(r, x, r.Intn(4))
+		cmp2 := present(r, y, r.Intn(4))
 		if r.Intn(3) == 0 {
 			staleEdits(r, ref2)
 			staleEdits(r, cmp2)
@@ -335,7 +336,7 @@ func caseC08(r *rand.Rand, cw *CalcWriter, label string, maxT int) {
 	// per compared tree (what a caller that sorts or tabulates the records does): a record must not change once delivered
 	k := 2 + r.Intn(3)
 	cpus := 1 + r.Intn(2)
-	ref := present(r, sa, r.Intn(3))
+	ref := present(r, sa, r.Intn(4))
 	pref := project(ref, ProjOpt{})
 	var cmps []*tree.Tree
 	var pcs []*PTree
@@ -347,7 +348,7 @@ func caseC08(r *rand.Rand, cw *CalcWriter, label string, maxT int) {
 		if r.Intn(3) == 0 {
 			y.contract(r, 0.3)
 		}
-		c := present(r, y, r.Intn(3))
+		c := present(r, y, r.Intn(4))
 		cmps = append(cmps, c)
 		pcs = append(pcs, project(c, ProjOpt{}))
 	}
